@@ -132,6 +132,7 @@ fn enumerate_faults<T: Elem + Clone + Ord>(ctx: &mut Ctx, fo: &FaultOp<'_, T>) {
             ctx.count("calls", 1);
             let what = format!("{} with {:?}#{} panicking", fo.desc, kind, k);
             if fired {
+                ctx.detail(|| format!("{}: panic injected and caught, survivor {}", what, match &surv { Some(a) => format!("size {:?}", a.size()), None => "n/a".into() }));
                 ctx.count("panics_injected", 1);
                 ctx.seen("crash_points", (fo.opn, &fo.desc, *kind, k));
             } else {
@@ -638,6 +639,7 @@ fn c12_case<T: Elem + Clone + Ord>(ctx: &mut Ctx, shape: (usize, usize), lk: Lea
                 drop(held);
                 ok &= check_double_drops(ctx, "leak");
                 if ok {
+                    ctx.detail(|| format!("{}: survivor size {:?}", what, a.size()));
                     ctx.seen("survivor_sizes", (lk, shape, a.size()));
                     exercise(ctx, "leak", &what, a);
                     ctx.nontrivial(("C12", lk, shape, idx, front, back, T::NAME));
